@@ -79,6 +79,10 @@ struct G<'a, 'b> {
     label_id: usize,
     /// the previous statement of the current block ended with `;` (or there is none)
     prev_terminated: bool,
+    /// odd spacing (used for code that is ignored and must be reproduced verbatim)
+    messy: bool,
+    /// output length right after a type assertion that is not wrapped in parentheses
+    bare_assertion_end: usize,
 }
 
 const SHORT_NAMES: [&str; 10] = ["a", "b", "c", "x", "y", "foo", "bar", "baz", "self", "t"];
@@ -108,6 +112,8 @@ pub fn generate(t: &mut Tape, syn: Syntax, opts: GenOpts) -> Generated {
         in_vararg: true,
         label_id: 0,
         prev_terminated: true,
+        messy: false,
+        bare_assertion_end: usize::MAX,
     };
     if g.t.chance(6) {
         g.out.push_str("#!/usr/bin/env lua\n");
@@ -146,6 +152,11 @@ impl<'a, 'b> G<'a, 'b> {
             self.push(" ");
             return;
         }
+        if self.messy {
+            let w = ["  ", " ", "   ", "\t", " \t "][self.t.pick(5)];
+            self.push(w);
+            return;
+        }
         if self.o.c_anywhere && self.t.chance(24) {
             self.any_comment();
             return;
@@ -168,6 +179,11 @@ impl<'a, 'b> G<'a, 'b> {
     /// optional separator (may be empty)
     fn opt(&mut self) {
         if self.o.clean {
+            return;
+        }
+        if self.messy {
+            let w = ["", " ", "  "][self.t.pick(3)];
+            self.push(w);
             return;
         }
         if self.o.c_anywhere && self.t.chance(12) {
@@ -281,7 +297,16 @@ impl<'a, 'b> G<'a, 'b> {
 
     fn block_body(&mut self, n: usize, top: bool) {
         let mut i = 0;
+        let mut region_open = false;
         self.prev_terminated = true;
+        if !self.o.clean && self.t.chance(24) {
+            // blank line(s) at the start of the block
+            self.push("\n");
+            if self.t.chance(80) {
+                self.push("\n");
+            }
+            self.labels.insert("blank-line-at-block-start");
+        }
         while i < n {
             let last = i + 1 == n;
             // blank lines between statements
@@ -299,18 +324,53 @@ impl<'a, 'b> G<'a, 'b> {
                     self.own_line_comment();
                 }
             }
-            if self.o.ignores && self.t.chance(30) {
-                self.write_indent(0);
-                self.push("-- stylua: ignore\n");
-                self.labels.insert("ignore");
+            let mut messy_stmt = false;
+            if self.o.ignores {
+                match self.t.pick(20) {
+                    0 | 1 | 2 => {
+                        self.write_indent(0);
+                        let d = if self.t.chance(40) { "--stylua: ignore\n" } else { "-- stylua: ignore\n" };
+                        self.push(d);
+                        self.labels.insert("ignore");
+                        messy_stmt = true;
+                        if self.o.c_before_stmt && self.t.chance(70) {
+                            // further comments between the directive and the node
+                            self.own_line_comment();
+                            self.labels.insert("ignore-then-comment");
+                        }
+                    }
+                    3 if !region_open => {
+                        self.write_indent(0);
+                        self.push("-- stylua: ignore start\n");
+                        self.labels.insert("ignore-start");
+                        region_open = true;
+                    }
+                    4 | 5 if region_open => {
+                        self.write_indent(0);
+                        self.push("-- stylua: ignore end\n");
+                        self.labels.insert("ignore-end");
+                        region_open = false;
+                    }
+                    6 if !region_open && self.t.chance(60) => {
+                        // an end without a start
+                        self.write_indent(0);
+                        self.push("-- stylua: ignore end\n");
+                    }
+                    _ => {}
+                }
             }
             self.write_indent(0);
+            let saved_messy = self.messy;
+            if messy_stmt || region_open {
+                self.messy = true;
+            }
             let is_last_stmt = last && self.t.chance(if top { 50 } else { 90 });
             if is_last_stmt {
                 self.last_stmt();
             } else {
                 self.stmt();
             }
+            self.messy = saved_messy;
             // semicolon
             if !self.o.clean && self.t.chance(40) {
                 self.opt_plain();
@@ -926,6 +986,11 @@ impl<'a, 'b> G<'a, 'b> {
                 if t == "Array" {
                     self.push("<");
                     self.type_expr(depth.saturating_sub(1));
+                    // `>>` is one token for the lexer but two for the type grammar: positions of the enclosing
+                    // nodes are then off by one, so nested generics are written `> >`
+                    if self.out.ends_with('>') {
+                        self.push(" ");
+                    }
                     self.push(">");
                 }
             }
@@ -1119,6 +1184,7 @@ impl<'a, 'b> G<'a, 'b> {
             self.labels.insert("table-multiline-input");
         }
         for i in 0..n {
+            let mut field_messy = false;
             if multiline {
                 self.push("\n");
                 if self.o.c_fields && self.t.chance(50) {
@@ -1128,11 +1194,21 @@ impl<'a, 'b> G<'a, 'b> {
                     self.push("\n");
                     self.labels.insert("c:before-field");
                 }
+                if self.o.ignores && self.t.chance(40) {
+                    self.write_indent(1);
+                    self.push("-- stylua: ignore\n");
+                    self.labels.insert("ignore-field");
+                    field_messy = true;
+                }
                 self.write_indent(1);
             } else if i == 0 {
                 self.opt_plain();
             } else {
                 self.push(" ");
+            }
+            let saved_messy = self.messy;
+            if field_messy {
+                self.messy = true;
             }
             match self.t.pick(4) {
                 0 => {
@@ -1161,6 +1237,7 @@ impl<'a, 'b> G<'a, 'b> {
                 }
                 _ => self.expr(depth),
             }
+            self.messy = saved_messy;
             let lastf = i + 1 == n;
             if !lastf || (!self.o.clean && self.t.chance(60)) {
                 let sep = if !self.o.clean && self.t.chance(40) { ";" } else { "," };
@@ -1226,7 +1303,11 @@ impl<'a, 'b> G<'a, 'b> {
                 // binary operator
                 self.labels.insert("binop");
                 self.expr(depth - 1);
-                let op = self.binop();
+                let mut op = self.binop();
+                if self.bare_assertion_end == self.out.len() && op.starts_with('<') {
+                    // `x :: T < y` would be read as the start of generic type arguments
+                    op = "==";
+                }
                 // `a..1` and `1..b` need spaces; always separate
                 self.sp();
                 self.push(op);
@@ -1323,6 +1404,7 @@ impl<'a, 'b> G<'a, 'b> {
                 self.sp();
                 let t = TYPE_NAMES[self.t.pick(4)];
                 self.push(t);
+                self.bare_assertion_end = self.out.len();
             }
             21 if self.luau() && !self.o.clean => {
                 self.labels.insert("if-expr");
